@@ -1,8 +1,8 @@
 package types
 
 import (
+	"bytes"
 	"encoding/binary"
-	"strings"
 
 	"github.com/cosmos/cosmos-sdk/codec"
 	sdk "github.com/cosmos/cosmos-sdk/types"
@@ -56,9 +56,10 @@ func IterateProcessedTime(store sdk.KVStore, cb func(key, val []byte) bool) {
 	defer iterator.Close()
 	for ; iterator.Valid(); iterator.Next() {
 		key := iterator.Key()
-		keySplit := strings.Split(string(key), "/")
-		// processed time key in prefix store has format: "consensusState/<height>/processedTime"
-		if len(keySplit) != 3 || keySplit[2] != "processedTime" {
+		// processed time key in prefix store has format: "consensusStates/<height>/processedTime", where
+		// <height> is 16 raw big-endian bytes that may themselves contain the separator "/":
+		// recognise the key by its length and suffix instead of splitting on "/"
+		if len(key) != len(host.KeyConsensusStatePrefix)+1+16+len(KeyProcessedTime) || !bytes.HasSuffix(key, KeyProcessedTime) {
 			// ignore all consensus state keys
 			continue
 		}
